@@ -5,11 +5,13 @@ use crate::rt::{Cfg, Policy};
 use serde_json::{json, Value};
 
 pub mod parallel;
+pub mod pathstack;
+pub mod pktline;
 pub mod refstore;
 pub mod selftest;
 
 pub fn all() -> Vec<&'static dyn Scenario> {
-    vec![&selftest::SelfTest, &parallel::Parallel, &refstore::RefStore]
+    vec![&selftest::SelfTest, &parallel::Parallel, &refstore::RefStore, &pktline::PktLine, &pathstack::PathStack]
 }
 
 /// Which scenario decides a property.
